@@ -4,6 +4,7 @@ from dataclasses import replace as dataclass_replace
 from enum import Enum
 from threading import Thread, Lock, Event, Timer
 from typing import Union, cast
+import logging
 import math
 import random
 from ..linklayer.exceptions import (
@@ -1938,8 +1939,10 @@ class Router:
             self.process_basic_header(packet)
         except Exception as e:  # pylint: disable=broad-except
             # A frame that cannot be decoded or processed is discarded; it must never
-            # raise into (and thereby stop) the link layer's receive loop.
-            print("GeoNetworking packet discarded: " + type(e).__name__ + ": " + str(e))
+            # raise into (and thereby stop) the link layer's receive loop. Neither must the
+            # report of the discard: print() raises when stdout is closed.
+            logging.getLogger("geonet").warning(
+                "GeoNetworking packet discarded: %s: %s", type(e).__name__, e)
 
     def duplicate_address_detection(self, gn_addr: GNAddress) -> None:
         """
